@@ -10,3 +10,4 @@ import Mdsort.Proofs.ConfAnywhere3
 import Mdsort.Proofs.ConfAnywhere4
 import Mdsort.Proofs.ConfAnywhere5
 import Mdsort.Proofs.ConfAnywhere6
+import Mdsort.Proofs.ConfAnywhere7
